@@ -488,9 +488,22 @@ fn stray_name(rng: &mut Rng, pool: &[String], stats: &mut Stats) -> String {
 fn stray_path(rng: &mut Rng, pool: &[String], stats: &mut Stats) -> String {
     let name = stray_name(rng, pool, stats);
     let dir = *rng.pick(&["index", "keys", "snapshots", "data"]);
-    match rng.below(7) {
+    match rng.below(10) {
         0 => name, // repository root
         1 => format!("{dir}/sub/{name}"),
+        7 => {
+            stats.hit("stray.two-levels");
+            format!("{dir}/sub/deeper/{name}")
+        }
+        8 => {
+            stats.hit("stray.three-levels");
+            format!("data/{}/x/y/{name}", if pool.is_empty() { "ab".to_string() } else { rng.pick(pool)[..2].to_string() })
+        }
+        9 => {
+            // below a directory that itself carries an id-like name
+            stats.hit("stray.below-id-named-dir");
+            format!("{dir}/{}/{name}", hex::encode(rng.bytes(32)))
+        }
         2 => format!("data/{}/{name}", if pool.is_empty() { "ab".to_string() } else { rng.pick(pool)[..2].to_string() }),
         3 => format!("other/{name}"),
         _ => format!("{dir}/{name}"),
@@ -558,7 +571,22 @@ pub fn generate(thorough: bool, rng: &mut Rng, ops: &mut Vec<String>, stats: &mu
                     } else {
                         (t, if t == 0 { "0".repeat(64) } else { gen_id(rng, &mut pool) }, 10)
                     };
-                    let (off, l) = match rng.below(10) {
+                    let big = u32::MAX as usize;
+                    let (off, l) = match rng.below(12) {
+                        10 => {
+                            // offset / length extremes of the u32 interface (offset + length beyond u32::MAX included);
+                            // huge lengths only where the backend does not allocate the buffer up front (OpenDAL)
+                            stats.hit("op.read-partial.extreme");
+                            if kind == "local" {
+                                *rng.pick(&[(big, 0), (big, 1), (big - 1, 1), (len, 0)])
+                            } else {
+                                *rng.pick(&[(big, 0), (big, 1), (1, big), (big, big), (len, big - len + 1), (0, big), (len.saturating_sub(1), big)])
+                            }
+                        }
+                        11 => {
+                            stats.hit("op.read-partial.last-byte-and-beyond");
+                            *rng.pick(&[(len.saturating_sub(1), 1), (len.saturating_sub(1), 2), (len, 1), (0, len + 1)])
+                        }
                         0 => (0, len),
                         1 => (0, 0),
                         2 => (len, 0),
@@ -592,7 +620,12 @@ pub fn generate(thorough: bool, rng: &mut Rng, ops: &mut Vec<String>, stats: &mu
                 18 if has_fs => {
                     stats.hit("op.stray-dir");
                     let dir = *rng.pick(&["index", "keys", "snapshots", "data", "data/ab"]);
-                    steps.push(format!("m,{dir}/{}", hex::encode(rng.bytes(32))));
+                    if rng.chance(1, 3) {
+                        stats.hit("op.stray-dir.nested");
+                        steps.push(format!("m,{dir}/n1/n2/{}", hex::encode(rng.bytes(32))));
+                    } else {
+                        steps.push(format!("m,{dir}/{}", hex::encode(rng.bytes(32))));
+                    }
                 }
                 _ => {
                     stats.hit("op.list");
